@@ -256,6 +256,8 @@ def _token(rng, sub):
     if sub == "size" and r < 0.85:
         s = _size(rng)
         return int(s) if rng.random() < 0.3 and s.isdigit() and not (len(s) > 1 and s[0] == "0") else s
+    if r < 0.04:
+        return "#" + "".join(rng.choice(HEX) for _ in range(rng.choice([1, 4, 8])))      # a token may start with '#'
     if r < 0.35:
         return "".join(rng.choice(HEX) for _ in range(rng.choice([1, 4, 8, 8, 32])))
     if r < 0.9:
@@ -641,8 +643,23 @@ def run_impl(case):
             except Exception as e:
                 return {"stage": "dump", "dumps": dumps, "err": err_kind(e)}
         text = dumps[-1]
-    raw = [[k, v] for k, v in deb822.Deb822(text).items()]
-    q = K(text)
+    # the text is handed over in one of its equivalent forms (chosen from the case itself): str, UTF-8 bytes, a list of
+    # lines with line ends, a binary file — the same form for the plain read-out and for the class under test
+    form = (len(text) + text.count(" ")) % 4
+    if any(ch in text for ch in "\r\x0b\x0c\x1c\x1d\x1e\x85\u2028\u2029"):
+        form = 0        # line boundaries other than LF split differently in str and bytes input (C02's subject)
+
+    def mk():
+        import io as _io
+        if form == 0:
+            return text
+        if form == 1:
+            return text.encode("utf-8")
+        if form == 2:
+            return text.encode("utf-8").splitlines(True)
+        return _io.BytesIO(text.encode("utf-8"))
+    raw = [[k, v] for k, v in deb822.Deb822(mk()).items()]
+    q = K(mk())
     _bad_behaviour_first(q, case)
     if case["behav"] is not None:
         try:
